@@ -44,20 +44,25 @@ func c13Judge(r *verifkit.R, phase string, ci int, res *convResult) {
 				bad(l.K.Kind+"-metric-differs-from-path-length", fmt.Sprintf("agent %d holds %s: metric %d, path length %d", x, l, l.Metric, len(l.Path)))
 			}
 		}
-		// nearer exit preferred
+		// nearer exit preferred: among all copies of a shared key that x holds (2 or more exits),
+		// the lookup the dial path uses returns one with the minimum path length
 		for _, k := range res.Shared {
+			ck := simCanonKey(k)
 			var cands []simLearned
 			for _, l := range learned {
-				if l.K == k {
+				if l.K == ck && len(l.Path) > 0 {
 					cands = append(cands, l)
 				}
 			}
-			if len(cands) != 2 || len(cands[0].Path) == len(cands[1].Path) || len(cands[0].Path) == 0 || len(cands[1].Path) == 0 {
+			if len(cands) < 2 {
 				continue
 			}
-			near := cands[0]
-			if len(cands[1].Path) < len(near.Path) {
-				near = cands[1]
+			minLen, maxLen := len(cands[0].Path), len(cands[0].Path)
+			for _, c := range cands {
+				minLen, maxLen = min(minLen, len(c.Path)), max(maxLen, len(c.Path))
+			}
+			if minLen == maxLen {
+				continue
 			}
 			got := -2
 			switch k.Kind {
@@ -77,10 +82,25 @@ func c13Judge(r *verifkit.R, phase string, ci int, res *convResult) {
 					got = s.origin(rt.OriginAgent)
 				}
 			}
+			if got == x {
+				continue // x is an exit for the key itself: its local route wins
+			}
+			gotLen := -1
+			for _, c := range cands {
+				if c.Origin == got {
+					gotLen = len(c.Path)
+				}
+			}
 			r.Add("nearer_exit_lookups", 1)
-			if got != near.Origin {
-				bad(k.Kind+"-nearer-exit-not-preferred", fmt.Sprintf("agent %d holds %s via origin %d at %d hops and via origin %d at %d hops; lookup returns origin %d",
-					x, k, cands[0].Origin, len(cands[0].Path), cands[1].Origin, len(cands[1].Path), got))
+			if len(cands) >= 3 {
+				r.Add("nearer_exit_lookups_3plus_exits", 1)
+			}
+			if gotLen != minLen {
+				var cs []string
+				for _, c := range cands {
+					cs = append(cs, fmt.Sprintf("origin %d at %d hops (metric %d)", c.Origin, len(c.Path), c.Metric))
+				}
+				bad(k.Kind+"-nearer-exit-not-preferred", fmt.Sprintf("agent %d holds %s via %v; lookup returns origin %d", x, k, cs, got))
 			}
 		}
 	}
@@ -98,6 +118,66 @@ func c13Judge(r *verifkit.R, phase string, ci int, res *convResult) {
 		}
 		r.Sample(map[string]any{"scenario": res.Desc, "tables_head": tables})
 	}
+}
+
+// c13Withdraw: class "withdraw". k = 3..5 agents are exits for the same CIDR prefix, domain
+// pattern and forward key. After convergence by flooding (every agent announces once), one or
+// two of the exits, chosen by PRNG, go away the way the code offers it: WithdrawLocalRoutes
+// (graceful stop: ROUTE_WITHDRAW flooded, every agent removes that origin's CIDR routes through
+// Table.RemoveRoute) and/or RemoveLocalRoute / RemoveLocalDomainRoute / RemoveLocalForwardRoute
+// at an exit (its own table entry is removed; it keeps the copies learned from the others).
+// The network quiesces WITHOUT any further announcement and is judged as it stands.
+func c13Withdraw(r *verifkit.R, rng *verifkit.Rand, g simGraph) *convResult {
+	s := newSimNet(g.N, nil)
+	res := &convResult{S: s, G: g, Class: "withdraw", Adverts: map[int][]simRouteKey{}, Quiesced: true}
+	sc := &simSched{DupPct: 5, MaxDups: 2, MaxSteps: 4000 + 400*(len(g.Edges)+1)*g.N}
+	s.ConnectGraph(g)
+	shared := []simRouteKey{{Kind: "cidr", Key: "172.20.0.0/16"}, {Kind: "domain", Key: "*.shared.example.net"}, {Kind: "forward", Key: "shared-fwd", Target: "127.0.0.1:9000"}}
+	if rng.Chance(1, 3) {
+		shared[0].Key = "2001:db8:77::/48"
+	}
+	res.Shared = shared
+	perm := make([]int, g.N)
+	for i := range perm {
+		perm[i] = i
+	}
+	verifkit.Shuffle(rng, perm)
+	exits := perm[:min(g.N, rng.Range(3, 5))]
+	for _, o := range exits {
+		for _, k := range shared {
+			if s.AddLocal(o, k) {
+				res.Adverts[o] = append(res.Adverts[o], k)
+			}
+		}
+	}
+	convAnnounceAll(s, rng)
+	res.Quiesced = s.simRunRandom(rng, sc)
+	var gone []string
+	for n := rng.Range(1, 2); n > 0 && res.Quiesced; n-- {
+		w := exits[rng.Intn(len(exits))]
+		switch rng.Intn(3) {
+		case 0: // graceful stop of exit w
+			s.tr("withdraw %d", w)
+			s.Nodes[w].Fl.WithdrawLocalRoutes()
+			gone = append(gone, fmt.Sprintf("exit %d withdrew", w))
+		case 1: // exit w drops its own routes for the shared keys
+			_, nw, _ := net.ParseCIDR(shared[0].Key)
+			s.Nodes[w].Mgr.RemoveLocalRoute(nw)
+			s.Nodes[w].Mgr.RemoveLocalDomainRoute(shared[1].Key)
+			s.Nodes[w].Mgr.RemoveLocalForwardRoute(shared[2].Key)
+			s.tr("remove-local %d", w)
+			gone = append(gone, fmt.Sprintf("exit %d removed its local routes", w))
+		default: // both
+			s.tr("withdraw+remove-local %d", w)
+			s.Nodes[w].Fl.WithdrawLocalRoutes()
+			_, nw, _ := net.ParseCIDR(shared[0].Key)
+			s.Nodes[w].Mgr.RemoveLocalRoute(nw)
+			gone = append(gone, fmt.Sprintf("exit %d withdrew and removed its local CIDR route", w))
+		}
+		res.Quiesced = s.simRunRandom(rng, sc)
+	}
+	res.Desc = fmt.Sprintf("withdraw %s exits=%v then %v", g, exits, gone)
+	return res
 }
 
 func TestVerif_C13(t *testing.T) {
@@ -145,6 +225,20 @@ func TestVerif_C13(t *testing.T) {
 		defer res.Close()
 		c13Judge(r, "built", ci, res)
 	})
+	// 3-5 exits for the same keys at different distances; the nearest one stops gracefully
+	// (ROUTE_WITHDRAW) or an exit drops its own local route; no further announcement
+	r.Cases("withdraw", r.N(500, 30000), func(ci int, rng *verifkit.Rand) {
+		var g simGraph
+		if ci%2 == 0 {
+			g = simChain(rng.Range(4, 7))
+		} else {
+			g = simRandomConnectedGraph(rng, rng.Range(4, 6), 15)
+		}
+		res := c13Withdraw(r, rng, g)
+		defer res.Close()
+		c13Judge(r, "withdraw", ci, res)
+	})
+	r.Require("nearer_exit_lookups_3plus_exits", 300)
 	r.Require("entries_checked", 5000)
 	r.Require("entries_pathlen_2", 500)
 	r.Require("entries_pathlen_3", 100)
